@@ -20,7 +20,7 @@ from type_inference.research import infer        # noqa: E402
 DIAGNOSTICS = (parse.ParsingException, rule_translate.RuleCompileException,
                functors.FunctorError, infer.TypeErrorCaughtException)
 
-SQLITE_OP_BUDGET = int(os.environ.get('VERIF_SQLITE_OPS', '40000000'))
+SQLITE_OP_BUDGET = int(os.environ.get('VERIF_SQLITE_OPS', '12000000'))
 
 
 class Interrupted(Exception):
